@@ -12,8 +12,8 @@ struct PinDef { double px, py, ax, ay; ConnDirFlags side; const char *name; };  
 static const PinDef DEFS[6] = {{ATTACH_POS_LEFT, ATTACH_POS_CENTRE, ATTACH_POS_MIN_OFFSET, 10, ConnDirLeft, "L"}, {ATTACH_POS_RIGHT, ATTACH_POS_CENTRE, ATTACH_POS_MAX_OFFSET, 10, ConnDirRight, "R"},
                                {ATTACH_POS_CENTRE, ATTACH_POS_TOP, 10, ATTACH_POS_MIN_OFFSET, ConnDirUp, "T"}, {ATTACH_POS_CENTRE, ATTACH_POS_BOTTOM, 10, ATTACH_POS_MAX_OFFSET, ConnDirDown, "B"},
                                {ATTACH_POS_RIGHT, 0.25, ATTACH_POS_MAX_OFFSET, 5, ConnDirRight, "R1"}, {ATTACH_POS_RIGHT, 0.75, ATTACH_POS_MAX_OFFSET, 15, ConnDirRight, "R2"}};
-struct Cfg { bool ortho; double inside; bool proportional; int dirMode; int excl; int mv; int cps; bool toJunction; int heap; bool early = false; int extra = 0; };   // extra: pins of ANOTHER class on the same shape (1: a ConnDirAll centre pin, 2: directional pins at the middle of all four sides)   // early: the move/resize (and a junction move) is issued BEFORE the first processTransaction   // dirMode 0 automatic(ConnDirNone) 1 explicit side 2 All; excl 0 default 1 forced exclusive 2 forced shared
-static string cfg_str(const Cfg &c) { return mcx::fmt("%s insideOffset=%g %s dirs=%s exclusive=%s then=%s checkpoints=%d far_end=%s heap=%d", c.ortho ? "orthogonal" : "polyline", c.inside, c.proportional ? "proportional" : "absolute", c.dirMode == 0 ? "automatic" : c.dirMode == 1 ? "side" : "all", c.excl == 0 ? "default" : c.excl == 1 ? "forced" : "shared", c.mv == 0 ? "nothing" : c.mv == 1 ? "translate" : "resize", c.cps, c.toJunction ? "junction" : "point", c.heap) + (c.early ? " move-before-first-transaction" : "") + (c.extra == 1 ? " +centre pin of another class" : c.extra == 2 ? " +four side pins of another class" : ""); }
+struct Cfg { bool ortho; double inside; bool proportional; int dirMode; int excl; int mv; int cps; bool toJunction; int heap; bool early = false; int extra = 0; bool costs = false; };   // extra: pins of ANOTHER class on the same shape (1: a ConnDirAll centre pin, 2: directional pins at the middle of all four sides)   // early: the move/resize (and a junction move) is issued BEFORE the first processTransaction   // dirMode 0 automatic(ConnDirNone) 1 explicit side 2 All; excl 0 default 1 forced exclusive 2 forced shared
+static string cfg_str(const Cfg &c) { return mcx::fmt("%s insideOffset=%g %s dirs=%s exclusive=%s then=%s checkpoints=%d far_end=%s heap=%d", c.ortho ? "orthogonal" : "polyline", c.inside, c.proportional ? "proportional" : "absolute", c.dirMode == 0 ? "automatic" : c.dirMode == 1 ? "side" : "all", c.excl == 0 ? "default" : c.excl == 1 ? "forced" : "shared", c.mv == 0 ? "nothing" : c.mv == 1 ? "translate" : "resize", c.cps, c.toJunction ? "junction" : "point", c.heap) + (c.early ? " move-before-first-transaction" : "") + (c.extra == 1 ? " +centre pin of another class" : c.extra == 2 ? " +four side pins of another class" : "") + (c.costs ? " +connection costs (50 on every other pin)" : ""); }
 
 static bool onSeg(Point a, Point b, Point p) { return fabs((b.x - a.x) * (p.y - a.y) - (p.x - a.x) * (b.y - a.y)) < 1e-6 && p.x >= min(a.x, b.x) - 1e-6 && p.x <= max(a.x, b.x) + 1e-6 && p.y >= min(a.y, b.y) - 1e-6 && p.y <= max(a.y, b.y) + 1e-6; }
 
@@ -34,6 +34,7 @@ static void run(unsigned pm, int k, const vector<pair<int, int>> &targets, const
         for (int i = 0; i < 6; i++) if (pm >> i & 1) { ConnDirFlags d = c.dirMode == 0 ? (ConnDirFlags)ConnDirNone : c.dirMode == 1 ? DEFS[i].side : (ConnDirFlags)ConnDirAll;
             ShapeConnectionPin *p = c.proportional ? new ShapeConnectionPin(sh, 1, DEFS[i].px, DEFS[i].py, true, c.inside, d) : new ShapeConnectionPin(sh, 1, DEFS[i].ax, DEFS[i].ay, false, c.inside, d);
             if (c.excl == 1) p->setExclusive(true); else if (c.excl == 2) p->setExclusive(false);
+            if (c.costs && (npins % 2 == 0)) p->setConnectionCost(50);
             pins.push_back(p); npins++; }
         if (c.extra == 1) new ShapeConnectionPin(sh, 2, ATTACH_POS_CENTRE, ATTACH_POS_CENTRE, true, 0.0, ConnDirAll);
         if (c.extra == 2) for (int i = 0; i < 4; i++) new ShapeConnectionPin(sh, 2, DEFS[i].px, DEFS[i].py, true, c.inside, DEFS[i].side);
@@ -111,6 +112,7 @@ int main(int argc, char **argv) {
         phase({(bool)ortho, 3, true, 1, 0, 0, 2, false, heap}, few, 1, 2);
         phase({(bool)ortho, 0, true, 1, 0, 0, 0, false, heap}, few, 2, 2);   // pins exactly on the boundary: known-finding class
         for (int ex = 1; ex <= 2; ex++) for (int mv = 0; mv < 2; mv++) { Cfg e{(bool)ortho, 3, true, 1, 0, mv, 0, false, heap}; e.extra = ex; phase(e, ex == 1 ? all : few, 2, ex == 1 ? 1 : 2); }
+        for (int mv = 0; mv < 3; mv++) { Cfg e{(bool)ortho, 3, true, 1, 0, mv, 0, false, heap}; e.costs = true; phase(e, few, 2, 2); }
         for (int mv = 1; mv < 3; mv++) { Cfg e{(bool)ortho, 3, true, 1, 0, mv, 0, false, heap}; e.early = true; phase(e, few, 2, 2); Cfg ej{(bool)ortho, 3, true, 1, 0, mv, 0, true, heap}; ej.early = true; phase(ej, few, 2, 3); }
     }
     if (TH) for (int ortho = 0; ortho < 2; ortho++) for (int heap = 1; heap <= 2; heap++) for (int prop = 0; prop < 2; prop++) for (int dm = 0; dm < 3; dm++) for (int ex = 0; ex < 3; ex++) for (int mv = 0; mv < 3; mv++) for (int tj = 0; tj < 2; tj++) {
